@@ -540,7 +540,7 @@ func (c *Corpus) Mutate(r *vlib.Rand, seed []byte) ([]byte, string) {
 	if len(m) == 0 {
 		return r.Bytes(r.Intn(16)), "random"
 	}
-	switch r.Intn(12) {
+	switch r.Intn(13) {
 	case 0, 1: // prefix (truncation) - the shape that finds missing length checks
 		n := r.Intn(len(m) + 1)
 		return m[:n], "prefix"
@@ -602,8 +602,127 @@ func (c *Corpus) Mutate(r *vlib.Rand, seed []byte) ([]byte, string) {
 		return b, "double"
 	case 10: // extend with junk
 		return append(m, r.Bytes(r.Range(1, 64))...), "extend"
+	case 11: // treat a byte / 16-bit word as a length: grow the region it covers by k bytes and add k to it
+		for try := 0; try < 8; try++ {
+			off := r.Intn(len(m))
+			width := 1 + r.Intn(2)
+			if off+width > len(m) {
+				continue
+			}
+			v := int(m[off])
+			if width == 2 {
+				v = int(binary.BigEndian.Uint16(m[off:]))
+			}
+			base := []int{off + width, off, 0}[r.Intn(3)] // counted from behind the field, from the field, from the start
+			end := base + v
+			if v == 0 || end > len(m) || end < off+width {
+				continue
+			}
+			k := r.Range(1, 4)
+			out := append(append(append([]byte{}, m[:end]...), r.Bytes(k)...), m[end:]...)
+			if width == 2 {
+				binary.BigEndian.PutUint16(out[off:], uint16(v+k))
+			} else {
+				out[off] = byte(v + k)
+			}
+			return out, "grow-region"
+		}
+		return m, "seed"
 	}
 	return m, "seed"
+}
+
+// lenField is a place in a seed that looks like a length covering everything up to the end of the seed.
+type lenField struct {
+	off, width int
+	le         bool
+	v          int
+}
+
+func (f lenField) put(b []byte, v int) {
+	switch {
+	case f.width == 1:
+		b[f.off] = byte(v)
+	case f.le:
+		binary.LittleEndian.PutUint16(b[f.off:], uint16(v))
+	default:
+		binary.BigEndian.PutUint16(b[f.off:], uint16(v))
+	}
+}
+
+// tailFields finds the bytes and 16-bit words of seed whose value, counted from the start of the seed, from the field or
+// from behind the field (plus at most 8 bytes of fixed header), reaches exactly the end of the seed: total lengths,
+// record lengths of the last record, option lengths of the last option. Outermost first.
+func tailFields(seed []byte) []lenField {
+	var out []lenField
+	n := len(seed)
+	for off := 0; off < n && len(out) < 12; off++ {
+		for _, f := range []lenField{{off: off, width: 2}, {off: off, width: 2, le: true}, {off: off, width: 1}} {
+			if off+f.width > n {
+				continue
+			}
+			switch {
+			case f.width == 1:
+				f.v = int(seed[off])
+			case f.le:
+				f.v = int(binary.LittleEndian.Uint16(seed[off:]))
+			default:
+				f.v = int(binary.BigEndian.Uint16(seed[off:]))
+			}
+			if f.v == 0 || f.v > n {
+				continue
+			}
+			if rest := n - f.v; rest >= 0 && rest <= off+f.width+8 { // n == v + (something between 0 and the end of the field + 8)
+				out = append(out, f)
+				break
+			}
+		}
+	}
+	return out
+}
+
+// Structural returns deterministic variants of seed in which the structure stays consistent at the outer levels and
+// becomes inconsistent further in: the tail is stretched by k bytes and the outermost j length fields that cover it are
+// increased by k (an inner element list then ends in a partial element - the shape a "while bytes remain" loop must
+// check for), one covering field alone is increased (inner region overruns the outer) or decreased (inner elements
+// overrun their container) without touching the data.
+func (c *Corpus) Structural(seed []byte) (out [][]byte, how []string) {
+	fs := tailFields(seed)
+	if len(fs) == 0 || len(seed) > 4096 {
+		return nil, nil
+	}
+	add := func(b []byte, h string) { out, how = append(out, b), append(how, h) }
+	for j := 1; j <= len(fs) && j <= 5; j++ {
+		for _, k := range []int{1, 2, 3, 4, 5, 7, 8} {
+			for fill := 0; fill < 2; fill++ {
+				b := append([]byte{}, seed...)
+				for i := 0; i < k; i++ {
+					if fill == 0 {
+						b = append(b, 0)
+					} else {
+						b = append(b, seed[len(seed)-1-(i%len(seed))]^0x5a)
+					}
+				}
+				for _, f := range fs[:j] {
+					f.put(b, f.v+k)
+				}
+				add(b, "stretch-tail")
+			}
+		}
+	}
+	for _, f := range fs {
+		for _, k := range []int{1, 2, 3, 4, 8} {
+			b := append([]byte{}, seed...)
+			f.put(b, f.v+k)
+			add(b, "length+k")
+			if f.v-k > 0 {
+				b = append([]byte{}, seed...)
+				f.put(b, f.v-k)
+				add(b, "length-k")
+			}
+		}
+	}
+	return
 }
 
 // Plain returns an input that is not derived from a seed.
